@@ -170,6 +170,7 @@ func monitorC13(c *Ctx, id string, cs Case, e *Exec, final []string) {
 			}
 		}
 	}
+	bigListProbe(c, id, cs)
 	for _, p := range probes {
 		nmax := 16777215 / p.w
 		for _, n := range []int{nmax, nmax + 1} {
@@ -206,6 +207,31 @@ func monitorC13(c *Ctx, id string, cs Case, e *Exec, final []string) {
 	}
 }
 
+// the limit is per item: a list of items at the limit is a message of more than
+// 16,777,215 text bytes, and encodes and decodes like any other
+func bigListProbe(c *Ctx, id string, cs Case) {
+	big := ast.NewASCIINode(string(bytes.Repeat([]byte{'q'}, 16777215)))
+	vals := make([]interface{}, 9000000)
+	for i := range vals {
+		vals[i] = 7
+	}
+	half := ast.NewBinaryNode(vals...)
+	for k, it := range []ast.ItemNode{ast.NewListNode(big), ast.NewListNode(half, half), ast.NewListNode(ast.NewListNode(big), half)} {
+		c.stats["limit-probe-items"]++
+		b := it.ToBytes()
+		if len(b) < 16777215 {
+			c.hit(id, cs, "limit-list-encoding", fmt.Sprintf("list probe %d: a variable-free list encodes to %d bytes", k, len(b)))
+			continue
+		}
+		m := ast.NewHSMSDataMessage("", 1, 1, 0, "H->E", it, 1, []byte{0, 0, 0, 1})
+		mb := m.ToBytes()
+		back, ok := hsms.Parse(mb)
+		if !ok || !bytes.Equal(back.ToBytes(), mb) {
+			c.hit(id, cs, "limit-list-decode", fmt.Sprintf("list probe %d (%d message bytes): decode ok=%v", k, len(mb), ok))
+		}
+	}
+}
+
 func min(a, b int) int {
 	if a < b {
 		return a
@@ -238,6 +264,32 @@ func suiteC02(c *Ctx) {
 		}
 		steps = append(steps, Step{Op: "NO", Args: []Arg{{T: 'b', B: true}, {T: 'b'}}})
 		c.emit(Case{"exhaustive-1byte", steps, false})
+	}
+	// every item type at the boundaries of the one-, two- and three-byte length forms, lists included
+	for _, n := range []int{0, 1, 254, 255, 256, 257, 65535, 65536} {
+		steps := []Step{{Op: "NO", Args: []Arg{{T: 'b', B: true}}}, {Op: "NB", Args: []Arg{{T: 'i', IK: KInt, I: 9}, {T: 'i', IK: KInt, I: 200}}}}
+		kids := make([]Arg, n)
+		for i := range kids {
+			kids[i] = Arg{T: 'r', Ref: i % 2}
+		}
+		steps = append(steps, Step{Op: "NL", Args: kids})
+		vals := make([]Arg, n)
+		for i := range vals {
+			vals[i] = Arg{T: 'i', IK: KInt, I: int64(i % 251)}
+		}
+		steps = append(steps, Step{Op: "NB", Args: vals}, Step{Op: "NU", W: 1, Args: vals}, Step{Op: "NA", S: bytes.Repeat([]byte{'k'}, n)})
+		bs := make([]Arg, n)
+		for i := range bs {
+			bs[i] = Arg{T: 'b', B: i%3 == 0}
+		}
+		steps = append(steps, Step{Op: "NO", Args: bs})
+		// the list inside a list, so that an inner header sits at an offset
+		if n <= 257 {
+			steps = append(steps, Step{Op: "NL", Args: []Arg{{T: 'r', Ref: 0}, {T: 'r', Ref: 2}, {T: 'r', Ref: 2}}})
+		} else {
+			steps = append(steps, Step{Op: "NL", Args: []Arg{{T: 'r', Ref: 0}, {T: 'r', Ref: 2}}})
+		}
+		c.emit(Case{"length-form-boundaries", steps, false})
 	}
 	// exhaustive 2-byte formats, 4096 values per item
 	for base := 0; base < 65536; base += 4096 {
@@ -309,7 +361,7 @@ func suiteC01(c *Ctx) {
 		default:
 			depth := g.pick(5)
 			if g.chance(0.05) {
-				depth = 20 + g.pick(c.scale(40, 150))
+				depth = 20 + g.pick(c.scale(230, 1500))
 			}
 			var it int
 			if depth >= 20 {
@@ -385,12 +437,25 @@ func suiteC03(c *Ctx) {
 	nmsg := c.scale(260, 12000)
 	budget := c.scale(60, 150)
 	var steps []Step
+	nflush := 0
 	flush := func(label string) {
 		if len(steps) > 0 {
-			c.emit(Case{label, steps, false})
+			// every third batch: the input buffers are written over after each call
+			nflush++
+			c.emit(Case{label, steps, nflush%3 == 0})
 			steps = nil
 		}
 	}
+	// nesting is not limited: chains of single-element lists of every depth up to 300 are well formed
+	for d := 1; d <= c.scale(300, 3000); d += 1 + d/40 {
+		text := bytes.Repeat([]byte{1, 1}, d)
+		text = append(text, 0xa5, 1, byte(d))
+		steps = append(steps, Step{Op: "HP", S: frame(text)})
+		if len(steps) >= 40 {
+			flush("deep")
+		}
+	}
+	flush("deep")
 	for i := 0; i < nmsg; i++ {
 		g := c.gen()
 		var it int
